@@ -75,7 +75,7 @@ PROPS = {
     "C19": P(["growth"], 119, runs=(700, 30000), budget=(40, 900),
              rule="A finite alphabet of <=4 URIs x <=4 header combinations (optionally an unsafe method) repeated for 8N requests (N=40 quick, 100-250 thorough) against origins using Vary (incl. '*' and changing sets), validation, stale-while-revalidate and 1-60 s lifetimes; store footprint recorded at N, 2N, 4N, 8N; one third of the runs end with an unsafe request to every URI.",
              require_probes=["C19/keys-unbounded", "C19/invalidation-leak"], technique="deterministic simulation: long histories on a virtual clock, footprint trend oracle at N/2N/4N/8N"),
-    "C20": P(["swr", "swr", "swrreuse"], 120,
+    "C20": P(["swr", "swr", "swrreuse", "swrflood"], 120,
              rule="SWR-eligible stale entries with and without validators; background origin latency 0..timeout-1ns, timeout, timeout+1ns, 10x timeout, never; outcomes 304 / 200 / 5xx / error / reset mid-body; WithSWRTimeout unset, 0, negative, 1ns, 1s, 5s, 60s; caller context cancelled before / after return.",
              require_probes=["swr-served", "swr-timeout-fired"], technique="deterministic simulation: virtual clock + quiescence detection; causal foreground-latency, exactly-once and goroutine-census oracles"),
 }
